@@ -69,6 +69,14 @@ Theorem C08_immediate_gap_requested : forall FS fs_write_file fs_exec resp_fail 
   else r_naks s' = r_naks s /\ r_delayed s' = r_delayed s ++ [(new_delay_counter now delay, prev_end, offset)].
 Proof. exact immediate_gap_requested. Qed.
 
+Theorem C08_immediate_expired_requests_all : forall FS fs_write_file fs_exec resp_fail not_performed cksum
+  now offset data delay (s : rstate FS),
+  r_phase s = RecvData -> r_nakproc s = Immediate delay -> eof_received s = false ->
+  snd (c_timeout_occurred now (t_nak (r_timer s))) = true ->
+  r_naks (pdu_filedata_acked FS fs_write_file fs_exec resp_fail not_performed cksum now offset data s) =
+  get_all_naks (store_file_data offset data s).
+Proof. exact immediate_expired_requests_all. Qed.
+
 Print Assumptions C08_queue_initial.
 Print Assumptions C08_queue_invariant.
 Print Assumptions C08_requests_inside_scope.
@@ -76,3 +84,4 @@ Print Assumptions C08_nak_fits.
 Print Assumptions C08_exactly_what_is_missing.
 Print Assumptions C08_deferred_no_unsolicited_nak.
 Print Assumptions C08_immediate_gap_requested.
+Print Assumptions C08_immediate_expired_requests_all.
